@@ -262,7 +262,7 @@ def gen_op(ctx, r, shape, cshape, coord):
         mode = r.choice(MODES + ['CONSTANT', 'constant', 'edge'])
         cval = r.choice([0, -1, -7, -1000, 99991, -3.5, 2.5])
         per_channel = r.random() < 0.45
-        extra = {'mode': mode, 'cval': cval, 'per_channel': per_channel}
+        extra = {'mode': mode, 'cval': cval, 'per_channel': per_channel, 'mode_enum': r.random() < 0.3}
     if kind == 'pad':
         room = [max(0, 10 - x) for x in n]
         form = r.choice(['int', 'pair', 'nested1', 'nested2', 'nested2'])
@@ -436,7 +436,11 @@ def apply_op(obj, op, is_volume, state=None):
     k = op['op']
     pad_kw = {}
     if 'mode' in op:
-        pad_kw = {'mode': op['mode'], 'constant_value': op['cval'], 'per_channel': op['per_channel']}
+        mode = op['mode']
+        if op.get('mode_enum'):
+            from highdicom.enum import PadModes
+            mode = PadModes(mode.upper())
+        pad_kw = {'mode': mode, 'constant_value': op['cval'], 'per_channel': op['per_channel']}
     if k == 'getitem':
         return obj[_py_index(op['index'])]
     if k == 'flip':
@@ -1150,6 +1154,37 @@ def helper_grid(ctx, reqs, pending):
     ctx.hist('grid', 'getitem axis', m)
 
 
+def closest_grid(ctx, reqs, pending):
+    """L2: get_closest_patient_orientation / handedness of the real code against the model on rational rotations"""
+    from highdicom.volume import VolumeGeometry
+    n = ctx.n(150, 1500)
+    for k in range(n):
+        r = ctx.rng('closest', k)
+        rot = _signed_perm(r)
+        if r.random() < 0.8:
+            for _ in range(20):
+                cand = _matmul(_matmul(_signed_perm(r), _planar_rotation(r)), rot)
+                if r.random() < 0.5:
+                    cand = _matmul(_planar_rotation(r), cand)
+                if not _has_tie(cand):
+                    rot = cand
+                    break
+        spacing = [Fraction(r.choice([1, 3, 4, 8, 10, 20])) / 8 for _ in range(3)]
+        lin = [[rot[i][j] * spacing[j] for j in range(3)] for i in range(3)]
+        aff = np.eye(4)
+        for i in range(3):
+            for j in range(3):
+                aff[i, j] = float(lin[i][j])
+        try:
+            g = VolumeGeometry(aff, [1, 1, 1], 'PATIENT')
+            impl = {'ok': [''.join(x.value for x in g.get_closest_patient_orientation()), g.handedness.value == 'LEFT_HANDED']}
+        except Exception as e:  # noqa: BLE001
+            impl = {'err': _err_kind(e)}
+        reqs.append(('closest', {'lin': [[_fr(x) for x in row] for row in lin]}))
+        pending.append({'helper': {'fn': 'closest', 'lin': [[_fr(x) for x in row] for row in lin]}, 'impl': impl})
+    ctx.hist('grid', 'closest orientation / handedness', n)
+
+
 def orientation_grid(ctx):
     """All 48 x 48 (current, desired) orientation pairs on a real volume: oracle only (finite, complete)."""
     from highdicom.volume import Volume
@@ -1230,6 +1265,7 @@ def run(ctx):
     reqs, pending = [], []
     slice_grid(ctx, reqs, pending)
     helper_grid(ctx, reqs, pending)
+    closest_grid(ctx, reqs, pending)
     n_grid = len(reqs)
     for entry in _corpus(ctx):
         run_fixed(ctx, entry, reqs, pending)
